@@ -424,6 +424,18 @@ def parser_semantics(ctx, rule):
         else:
             ok = len(outs) == 1 and outs[0].kind == 'return' and same(outs[0].value, want[0])
         ctx.require(ok, rule, fname, ctx.where(f), f'{fname}(stream) gives {outs}', construct=f'{f.qname}::result')
+        # input that holds no complete message: nothing comes out and nothing is raised
+        for label, data in (('no bytes', []), ('a stray data byte', [n1]), ('a cut-off note_on', [0x93, n1]), ('an unfinished sysex', [0xf0, d0, d1]),
+                            ('an undefined status byte', [0xf4])):
+            outs = ai.explore(lambda: ai.call_function(f, [AList(list(data), 'list')], {}))
+            v = outs[0].value if len(outs) == 1 and outs[0].kind == 'return' else outs
+            if fname == 'parse_all':
+                ok = len(outs) == 1 and outs[0].kind == 'return' and (v == [] or (isinstance(v, AList) and not v.items))
+            else:
+                ok = len(outs) == 1 and outs[0].kind == 'return' and v is None
+            ctx.require(ok, rule, f'{fname}({label})', ctx.where(f),
+                        f'{fname}() on {label} gives {v!r}; expected {"[]" if fname == "parse_all" else "None"} and no exception',
+                        construct=f'{f.qname}::no-message')
     for q in ai.inlined:
         ctx.functions.add(q)
 
